@@ -192,11 +192,12 @@ def check_ell(run, A):
     q = B + 'phase_correction'
     fn = A.prog.func(q)
     g = A.graphs.get(fn)
-    cps = [t for t, _, ax, name, _ in axis_uses(g) if name == 'numpy.cumprod']
+    cps = [t for t, _, ax, name, _ in axis_uses(g) if name in ('numpy.cumprod', 'numpy.cumsum', 'method:cumprod', 'method:cumsum')]
     if not cps:
-        raise AnalysisError('phase_correction: cumulative product not found')
-    run.check(const_val(call_arg(cps[0], 1, 'axis')) == -2, 'R-ELL', 'phase_correction: cumulative phase along the frequency axis', fn.loc(cps[0].node), 'axis=-2',
-              f'cumprod over axis {const_val(call_arg(cps[0], 1, "axis"))!r}; the documented layout is (..., bins, sensors), the frequency axis is -2', construct=f'R-ELL::{q}::cumprod-axis')
+        raise AnalysisError('phase_correction: cumulative product / sum over the frequency axis not found')
+    acc_ax = const_val(call_arg(cps[0], 1, 'axis'))
+    run.check(acc_ax == -2, 'R-ELL', 'phase_correction: phase is accumulated along the frequency axis', fn.loc(cps[0].node), 'axis=-2',
+              f'accumulation over axis {acc_ax!r}; the documented layout is (..., bins, sensors), the frequency axis is -2', construct=f'R-ELL::{q}::cumprod-axis')
     ev_st = [e for e in g.events if e.kind == 'inplace']
     okc = bool(ev_st) and all(is_call_to(strip_views(e.data['target']), 'numpy.array') or is_call_to(strip_views(strip_views(e.data['target'])), 'numpy.array') or
                               any(is_call_to(x, 'numpy.array', 'numpy.copy', 'method:copy') for x in walk_terms(e.data['target'])) for e in ev_st)
